@@ -74,8 +74,14 @@ class Rec(Relay):
         self.log, self.rawof = log, rawof
 
     def attempt(self, env, attempts):
+        # the first attempt of every message fails for now: "resumes retrying" includes the bookkeeping of a retry
+        # (attempt counter, next time) on a message that was found after the crash; the second attempt delivers
         m = re.search(rb'content (\d+)', env.message or b'')
-        self.log.append(int(m.group(1)) if m else 0)
+        c = int(m.group(1)) if m else 0
+        self.log.append(c)
+        if self.log.count(c) == 1:
+            from slimta.relay import TransientRelayError
+            raise TransientRelayError('try again')
         return None
 
 
@@ -153,7 +159,7 @@ def run_history(ops, target, d, use_tmp=True):
     vt.CLOCK.reset(1000.0)
     attempted = []
     st3 = DiskStorage(os.path.join(d, 'env'), os.path.join(d, 'meta'), tmpd)
-    q = Queue(st3, Rec(attempted, raw))
+    q = Queue(st3, Rec(attempted, raw), backoff=lambda env, n: 0 if n < 3 else None)
     q.start()
     # disk reads take real time (aio): wait for every listed message to be attempted, giving up only after a
     # generous wall-clock allowance, so that a loaded machine cannot turn slowness into a verdict
@@ -161,7 +167,7 @@ def run_history(ops, target, d, use_tmp=True):
     want = len([1 for g_ in rec['gets'] if g_.get('ok') and g_['rcpts']])
     t_end = _time.time() + 20.0
     k_ = 0
-    while k_ < 60 or (len(set(attempted)) < want and _time.time() < t_end):
+    while k_ < 60 or (len([c for c in set(attempted) if attempted.count(c) >= 2]) < want and _time.time() < t_end):
         k_ += 1
         gevent.sleep(0.002)
         vt.settle()
@@ -174,6 +180,7 @@ def run_history(ops, target, d, use_tmp=True):
         if e1['t'] == 'call' and e1['op'] == 'write' and e2['t'] == 'ret' and e2.get('ok'):
             c2id[e1['a']['content']] = e2['v']
     rec['attempted'] = sorted(set(c2id.get(c, 0) for c in attempted))
+    rec['attempted2'] = sorted(set(c2id.get(c, 0) for c in attempted if attempted.count(c) >= 2))
     ev.append(rec)
     shutil.rmtree(d, ignore_errors=True)
     return ev, neffects, len(ids)
